@@ -12,13 +12,13 @@ package ina
 //@ func getJWPlayerURLs
 //@   property C10
 //@   opaque
-//@   sweep idx slice div
+//@   sweep idx slice div assert
 //@   loop range invariant [matches] (arrof(matches) == 0 || !samearray(matches, URLs)) && forall(j, 0, len(matches), len(matches[j]) >= regexp.minMatchLen(playerRegex)) && regexp.minMatchLen(playerRegex) >= 2
 //@ func ExtractPlayerURLs
 //@   property C10
 //@   opaque
-//@   sweep idx slice div
+//@   sweep idx slice div assert
 //@ func ExtractPlayerURLs$1
 //@   property C10
 //@   opaque
-//@   sweep idx slice div
+//@   sweep idx slice div assert
